@@ -251,6 +251,9 @@ def run_panic_inventory(ctx, rid, entries, text, ctx_sensitive=False, kinds=None
                 n_rev += 1
                 ctx.ob(rid, s.key, True, "", ctx.where(f, s.line), sample={"site": s.key, "discharged": "reviewed: " + r["why"] + (" [guard %s verified]" % g if g else "")})
                 continue
+            # a reviewed site whose machine-checked precondition no longer holds: the argument that made it safe is gone
+            ctx.ob(rid, s.key, False, "reachable panic site whose reviewed guard `%s` no longer holds (%s): %s %s in %s" % (g, r["why"], s.kind, s.detail.rsplit("::", 2)[-1] if s.kind == "call" else s.detail, f["display"]), ctx.where(f, s.line))
+            continue
         pool = vanished.get((s.fn.split("::", 1)[0], s.kind, s.detail), [])
         if pool and s.key not in reviewed:
             k_old = pool.pop(0)
@@ -264,7 +267,7 @@ def run_panic_inventory(ctx, rid, entries, text, ctx_sensitive=False, kinds=None
         is_index_call = s.kind == "call" and s.detail.rsplit("::", 1)[-1] in ("index", "index_mut") and ("Index<" in s.detail or "IndexMut<" in s.detail)
         if (declared_invariants_undecided is True and is_index_call) or \
                 (declared_invariants_undecided is True and s.kind == "assert" and s.detail == "bounds") or (declared_invariants_undecided and s.kind == "call" and s.detail.startswith("core::panicking::")) \
-                or (declared_invariants_undecided and s.kind == "assert" and s.detail.startswith("overflow:")):
+                or (declared_invariants_undecided is True and s.kind == "assert" and s.detail.startswith("overflow:")):
             # an index whose range this analysis cannot bound, or an assertion / unreachable!() the author declared:
             # whether it can fire depends on values; no verdict (reported, not an alarm). Calls of panicking library
             # functions (unwrap, expect, Duration arithmetic, slicing, division) stay violations.
